@@ -21,7 +21,7 @@ RULE = ("values: kernel class x parameters (delta in [2e-3,1e3], half of them wi
         "rank 0..3 (extents 0..3) whose elements are drawn per class {0, tiny, EXACTLY the threshold T (delta^2, "
         "1/delta^2, a), T(1+-2^k eps) k=0..12, T*10^[-4,4], up to 1e12}, float32/float64; oracle = documented closed "
         "form in 40-digit mpmath on the exact input values; |y-ref| <= 16 eps (|ref|+s) with s the size of the "
-        "cancelling terms of the documented formula (delta^2; 1 for SoftLOne; a+|b| for Tolerant; 0 for Arctan/Scale), "
+        "cancelling terms of the documented formula (delta^2; 2 for SoftLOne; 2(a+|b|) for Tolerant; 0 for Arctan/Scale), "
         "finite, k(0)=0 to that tolerance, non-decreasing after sorting (same tolerance), same shape; Huber: autograd "
         "slope == min(1, delta/sqrt(x)) within 16 eps at every element incl. the threshold.  reject: the same tensors "
         "with >= 1 negative element (-tiny .. -1e12, -inf, any position): any exception passes, a returned tensor "
@@ -169,7 +169,8 @@ def _sut(rec, what, tag):
 # ---------------------------------------------------------------------------------------------------
 class Values(Sub):
     name = "values"
-    n = {"quick": 14000, "thorough": 400000}
+    budget_s = {"quick": 400.0, "thorough": 3000.0}      # wall guard only (~7 ms/case); case counts are the budget
+    n = {"quick": 16000, "thorough": 400000}
 
     def strategy(self, tier):
         @st.composite
@@ -244,6 +245,7 @@ class Values(Sub):
 
 class Reject(Sub):
     name = "reject"
+    budget_s = {"quick": 400.0, "thorough": 3000.0}      # wall guard only (~7 ms/case); case counts are the budget
     n = {"quick": 3000, "thorough": 60000}
 
     def strategy(self, tier):
@@ -298,7 +300,8 @@ TMAX = {"exp": 3.0, "sine": 4.4}
 
 class Correctors(Sub):
     name = "correctors"
-    n = {"quick": 9000, "thorough": 250000}
+    budget_s = {"quick": 400.0, "thorough": 3000.0}      # wall guard only (~7 ms/case); case counts are the budget
+    n = {"quick": 12000, "thorough": 250000}
 
     def strategy(self, tier):
         @st.composite
@@ -359,7 +362,7 @@ class Correctors(Sub):
         xs = (Rn ** 2).sum(1)
         rn, jn = np.sqrt(xs), np.sqrt((Jn ** 2).sum(1))                  # |R_i|, column norms of J_i  (n,P)
         g_ref = np.einsum("i,idp,id->p", r1, Jn, Rn)
-        g_tol = rtol * np.einsum("i,i,ip->p", cond * r1, rn, jn) + tiny
+        g_tol = rtol * np.einsum("i,i,ip->p", cond * r1, rn, jn) + tiny * (1 + np.einsum("i,ip->p", rn, jn))
         rec.label(k, fam, dtype, *("row:" + c for c in sorted(set(rcls))), *("gen:" + c for c in sorted(set(case["cls"]))))
         if {"zero", "pos", "nonpos"} <= set(rcls):
             rec.nt((k, dtype, tuple(sorted(rcls)), tuple(sorted(set(case["cls"]))), d, P, len(case["shape"])))
@@ -389,13 +392,13 @@ class Correctors(Sub):
         for i in range(n):
             jf2 = float((Jn[i] ** 2).sum())
             sq = math.sqrt(r1[i])
-            eR = float(np.abs(Rt[i] - Rf[i]).max()) / (rtol * cond[i] * sq * rn[i] + tiny)
-            eJ = float(np.abs(Jt[i] - Jf[i]).max()) / (rtol * cond[i] * sq * math.sqrt(jf2) + tiny)
+            eR = float(np.abs(Rt[i] - Rf[i]).max()) / (rtol * cond[i] * sq * rn[i] + tiny * (1 + rn[i]))
+            eJ = float(np.abs(Jt[i] - Jf[i]).max()) / (rtol * cond[i] * sq * math.sqrt(jf2) + tiny * (1 + math.sqrt(jf2)))
             H = Jt[i].T @ Jt[i]
             v = Jn[i].T @ Rn[i]
             H_ref = r1[i] * Jn[i].T @ Jn[i] + 2 * r2[i] * np.outer(v, v)
             amp = 1 + 2 * xs[i] * max(r2[i], 0.0) / r1[i] if r1[i] > 0 else 1.0
-            eH = float(np.abs(H - H_ref).max()) / (rtol * cond[i] * r1[i] * amp * jf2 + tiny)
+            eH = float(np.abs(H - H_ref).max()) / (rtol * cond[i] * r1[i] * amp * jf2 + tiny * (1 + jf2))
             if rcls[i] == "pos":
                 rec.notes["r_hessian:" + dtype] = max(rec.notes.get("r_hessian:" + dtype, 0), eH)
                 rec.check(eH <= 1, "hessian:Triggs:%s:%s" % (fam, dtype),
